@@ -33,9 +33,16 @@ NH == Len(HsVals)
 
 (* records made of serializable messages *)
 Hs(j) == [t |-> "hs", m |-> HsVals[j]]
-RecVals == << [ct |-> 22, ver |-> 771, msgs |-> <<Hs(1)>>], [ct |-> 22, ver |-> 769, msgs |-> <<Hs(NH - 2), Hs(5), Hs(500)>>],
+RecBase == << [ct |-> 22, ver |-> 771, msgs |-> <<Hs(1)>>], [ct |-> 22, ver |-> 769, msgs |-> <<Hs(NH - 2), Hs(5), Hs(500)>>],
               [ct |-> 20, ver |-> 771, msgs |-> <<[t |-> "ccs"]>>], [ct |-> 20, ver |-> 768, msgs |-> <<[t |-> "ccs"], [t |-> "ccs"]>>],
               [ct |-> 22, ver |-> 65277, msgs |-> <<Hs(440), Hs(470)>>], [ct |-> 22, ver |-> 771, msgs |-> <<Hs(490), Hs(477), Hs(NH - 2)>>] >>
+(* the length field of the value handed to the serializer is whatever the caller left there: 0, stale, or huge *)
+RecVals == Concat([q \in 1..Len(RecBase) |->
+             [l \in 1..4 |-> [ct |-> RecBase[q].ct, ver |-> RecBase[q].ver, msgs |-> RecBase[q].msgs, len |-> <<0, 1, 47, 65535>>[l]]]])
+(* values obtained by parsing valid records (RFC encodings, e.g. without an extension block), then serialized *)
+FromBytes == [q \in 1..8 |->
+  LET ms == <<<<Hs(1)>>, <<Hs(2)>>, <<Hs(300), Hs(NH - 2)>>, <<Hs(433)>>, <<Hs(440)>>, <<Hs(481)>>, <<Hs(485), Hs(1)>>, <<Hs(NH - 2), Hs(499)>>>>[q] IN
+  [bytes |-> EncRecordRaw(22, 771, Concat([j \in 1..Len(ms) |-> EncHs(ms[j].m)])), msgs |-> ms]]
 (* extensions the serializer supports *)
 ExtVals == << <<>>,
               << [t |-> "SNI", tag |-> 0, names |-> <<[nt |-> 0, name |-> <<97, 46, 98>>]>>] >>,
@@ -49,14 +56,16 @@ Unsupported == << [t |-> "hs", m |-> [t |-> "ServerDone", data |-> <<>>]], [t |-
                   [t |-> "alert", sev |-> 1, code |-> 0], [t |-> "app", blob |-> <<1>>], [t |-> "hb", hbt |-> 1, plen |-> 0, payload |-> <<>>] >>
 UnsupportedExt == << [t |-> "Padding", tag |-> 21, data |-> <<0>>], [t |-> "Heartbeat", tag |-> 15, v |-> 1], [t |-> "Unknown", tag |-> 99, ty |-> 99, data |-> <<>>] >>
 
-N == NH + Len(RecVals) + Len(ExtVals) + Len(Unsupported) + Len(UnsupportedExt) + 1
+N == NH + Len(RecVals) + Len(ExtVals) + Len(Unsupported) + Len(UnsupportedExt) + 1 + Len(FromBytes)
 Case(i) ==
   IF i <= NH THEN [kind |-> "hs", v |-> HsVals[i]]
   ELSE IF i <= NH + Len(RecVals) THEN [kind |-> "record", v |-> RecVals[i - NH]]
   ELSE IF i <= NH + Len(RecVals) + Len(ExtVals) THEN [kind |-> "exts", v |-> ExtVals[i - NH - Len(RecVals)]]
   ELSE IF i <= NH + Len(RecVals) + Len(ExtVals) + Len(Unsupported) THEN [kind |-> "unsupported_msg", v |-> Unsupported[i - NH - Len(RecVals) - Len(ExtVals)]]
-  ELSE IF i < N THEN [kind |-> "unsupported_ext", v |-> UnsupportedExt[i - NH - Len(RecVals) - Len(ExtVals) - Len(Unsupported)]]
-  ELSE [kind |-> "ccs_msg", v |-> [t |-> "ccs"]]
+  ELSE IF i <= NH + Len(RecVals) + Len(ExtVals) + Len(Unsupported) + Len(UnsupportedExt)
+       THEN [kind |-> "unsupported_ext", v |-> UnsupportedExt[i - NH - Len(RecVals) - Len(ExtVals) - Len(Unsupported)]]
+  ELSE IF i = NH + Len(RecVals) + Len(ExtVals) + Len(Unsupported) + Len(UnsupportedExt) + 1 THEN [kind |-> "ccs_msg", v |-> [t |-> "ccs"]]
+  ELSE [kind |-> "from_bytes", v |-> FromBytes[i - (NH + Len(RecVals) + Len(ExtVals) + Len(Unsupported) + Len(UnsupportedExt) + 1)]]
 
 VARIABLE i
 Init == i = Chunk + 1 /\ i <= N
@@ -69,6 +78,7 @@ ParseBack ==
   LET c == Case(i) IN
   /\ c.kind = "hs" => LET s == StrictHs(SerHs(c.v)) IN s.ok /\ s.v = Normalize(c.v)
   /\ c.kind = "record" => LET s == StrictRecord(SerRecord(c.v)) IN s.ok /\ s.v = [j \in 1..Len(c.v.msgs) |-> NormMsg(c.v.msgs[j])]
+  /\ c.kind = "from_bytes" => RangeFalse!ParsePlaintext(c.v.bytes, 0, Len(c.v.bytes)).v.msg = c.v.msgs
   /\ c.kind = "exts" => LET b == BE16(Len(EncExtList(c.v))) \o EncExtList(c.v) s == StrictExtBlock(b) IN s.ok /\ s.v = c.v
 (* re-serializing the parsed value reproduces the same bytes *)
 ReSerializeStable ==
@@ -79,6 +89,7 @@ Expect(c) ==
     [] c.kind = "record" -> [norm |-> [j \in 1..Len(c.v.msgs) |-> NormMsg(c.v.msgs[j])], ser |-> SerRecord(c.v)]
     [] c.kind = "exts" -> [norm |-> c.v, ser |-> BE16(Len(EncExtList(c.v))) \o EncExtList(c.v)]
     [] c.kind = "ccs_msg" -> [norm |-> <<[t |-> "ccs"]>>, ser |-> <<1>>]
+    [] c.kind = "from_bytes" -> [norm |-> [j \in 1..Len(c.v.msgs) |-> NormMsg(c.v.msgs[j])], ser |-> SerRecord([ct |-> 22, ver |-> 771, msgs |-> c.v.msgs])]
     [] OTHER -> [norm |-> <<>>, ser |-> <<>>]
 EmitCase == LET c == Case(i) IN EmitLine([id |-> i, kind |-> c.kind, v |-> c.v, norm |-> Expect(c).norm, ser |-> Expect(c).ser])
 =============================================================================
